@@ -289,7 +289,10 @@ def cataOfBuiltin (name : String) : Option Cata :=
   | "count" => some (.count 0)
   | _ => none
 
-def builtinNames : List String := ["first", "last", "sum", "max", "min", "count", "len", "print"]
+/-- operators are ordinary functions: their names denote builtins that can be called directly -/
+def opNames : List String := ["+", "-", "*", "//", "%", "==", "!=", "<", "<=", ">", ">=", "$", "++", "append"]
+
+def builtinNames : List String := ["first", "last", "sum", "max", "min", "count", "len", "print"] ++ opNames
 
 /-- insert a key/value into an association list (`HashMap::insert` up to order) -/
 def dictInsert (kvs : List (Val × Val)) (k v : Val) : List (Val × Val) :=
@@ -736,6 +739,14 @@ mutual
           (match xs.foldl (fun acc x => match acc with | some a => (match applyOp "+" a x with | .ok v => some v | .raise => none) | none => none) (some (.int 0)) with
            | some v => .val v | none => .thrown .err, st)
         | _ => (.thrown .err, st)
+      | .builtin name =>
+        -- an operator called in function form: `+(a, b)`; unary `-(a)` negates
+        if opNames.contains name then
+          match args with
+          | [a, b] => (match applyOp name a b with | .ok v => .val v | .raise => .thrown .err, st)
+          | [.int a] => if name = "-" then (.val (.int (-a)), st) else (.thrown .err, st)
+          | _ => (.thrown .err, st)
+        else (.thrown .err, st)
       | _ => (.thrown .err, st)
 
 end
